@@ -67,6 +67,11 @@ CHECKS = {
         text="C17_chords_majorise, C17_chords_exact_at_breaks, C17_chords_monotone_convex, C17_chords_tolerance hold for every order >= 1 and every increasing breakpoint list; check_breaks is run in Coq on the breakpoints recovered from LinearizedOrderGoal._get_linear_coefficients (orders 2-5, four tolerances) so the theorems apply to the actual coefficients; C17_min_abs and C17_qp_form cover the absolute-value and QP front-end algebra. Equivalent formulations are compared by paired real solves: single pass (both methods) vs multi-pass keep_soft, CachingQPSol vs casadi.qpsol (qpOASES, OSQP), expand on/off, map modes, second optimize() vs fresh.",
         note="Trusted: Coq kernel + vm_compute; harness; the solvers (paired runs are solver-regime samples compared to 1e-5; QP plugins run in a forked child with a timeout because HiGHS' QP solver can loop on degenerate problems). Vector-vs-scalar goals and MinAbs-vs-explicit pairs are not yet part of the paired runs. No axioms. Genuine defect repaired in /repo 522ac7c (CachingQPSol Hessian).",
         ref="DESIGN.md §5 C17"),
+    "C03": dict(
+        technique="Coq proof (soundness of an optimality-certificate checker for convex quadratic goal problems: convexity + duality bound over arbitrary dimensions) + the checker evaluated in Coq on every solved priority of real runs, on a formulation built independently of rtc-tools and compared with the transcribed NLP",
+        text="C03_kkt_sound / C03_certified_optimal: if check_cert accepts (x, multipliers) with bound gap then no feasible point of the convex problem has an objective below obj(x) - gap, for any number of variables, rows and order-1/order-2 terms. At every priority of real IPOPT runs (i) the NLP handed to the solver (f, g, lbg, ubg, lbx, ubx at rational points) is compared with the documented subproblem written down independently (gpform.py: weights, orders, soft rows with 0<=eps<=1, retained constraints, probabilities) and evaluated by the Gallina transcription model; (ii) the returned point and multipliers are certified in Coq on that independent formulation: reported objective = documented objective at the point, gap <= 1e-5, violation <= 1e-6; a loose certificate is backed by an independent solve of the independent formulation before any alarm.",
+        note="Trusted: Coq kernel + vm_compute; gpform.py (the documented formulation) and the harness; IPOPT multipliers are inputs to a checker that is sound for any multipliers. keep_soft / single-pass objective constraints and scale_by_problem_size are compared by optimal value in C17, not by formulation; orders > 2 and nonlinear goal functions are outside the checker. No axioms.",
+        ref="DESIGN.md §5 C03"),
 }
 
 PENDING_REASON = "check not built yet (work in progress; see DESIGN.md §7 build order) — not claimed until its Coq model, theorems and correspondence check run clean on the unchanged tree"
